@@ -42,10 +42,14 @@ func allCfgs() []Cfg {
 // rotate picks k configurations for the i-th element so that over a corpus
 // every configuration is used about equally often.
 func rotate(i, k int) []Cfg {
-	all := allCfgs()
 	var out []Cfg
+	if k >= 32 {
+		return allCfgs()
+	}
+	// every destination mode at least once per element, flag combinations rotating
 	for j := 0; j < k; j++ {
-		out = append(out, all[(i*k+j*11+i/len(all))%len(all)])
+		b := (i*3 + j*5 + j/4) % 8
+		out = append(out, Cfg{Dest: dests[j%4], Stub: b&1 != 0, SkipEnsure: b&2 != 0, WithResets: b&4 != 0})
 	}
 	return out
 }
@@ -83,9 +87,9 @@ func typeShapes() []struct {
 func CorpusTypes(seed int64, tier string) []*Case {
 	var cases []*Case
 	pkgs := []Pkg{dep("alpha", "x", "alpha"), dep("beta", "x", "beta")}
-	k := 3
+	k := 4
 	if tier == "thorough" {
-		k = 12
+		k = 32
 	}
 	for i, sh := range typeShapes() {
 		t := sh.T
@@ -134,6 +138,7 @@ func importUniverse(tier string) []impElem {
 func CorpusImports(seed int64, tier string) []*Case {
 	u := importUniverse(tier)
 	var cases []*Case
+	oneType := false
 	mk := func(sel []impElem, aliases []string, tag string) {
 		seenPath := map[string]bool{}
 		var pkgs []Pkg
@@ -146,21 +151,51 @@ func CorpusImports(seed int64, tier string) []*Case {
 			pkgs = append(pkgs, p)
 		}
 		it := Iface{Name: "Imp"}
-		for i := range pkgs {
-			it.Methods = append(it.Methods, meth(fmt.Sprintf("M%d", i+1), ps(par("v", Named(i, "T"))), nil))
-			am := map[int]string{}
-			if i < len(aliases) && aliases[i] != "" {
-				am[i] = aliases[i]
+		shape := len(cases) % 4
+		if oneType && len(pkgs) == 2 {
+			// both packages inside one parameter type: the order in which they reach
+			// the registry is the type-walk order, not a map order
+			it.Methods = append(it.Methods, meth("M1", ps(par("m", Map(Named(0, "U"), Named(1, "T")))), nil))
+			it.Aliases = append(it.Aliases, map[int]string{})
+			// source aliases are declared by other files of the package
+			for i := range pkgs {
+				if i < len(aliases) && aliases[i] != "" {
+					it.Methods = append(it.Methods, meth(fmt.Sprintf("N%d", i+1), ps(par("v", Named(i, "T"))), nil))
+					it.Aliases = append(it.Aliases, map[int]string{i: aliases[i]})
+				}
 			}
-			it.Aliases = append(it.Aliases, am)
+		} else {
+			for i := range pkgs {
+				var m Method
+				switch (shape + i) % 4 {
+				case 0:
+					m = Method{Name: fmt.Sprintf("M%d", i+1), Params: ps(par("first", Basic("int")), par("rest", Slice(Named(i, "T")))), Results: []Param{}, Variadic: true}
+				case 1:
+					m = meth(fmt.Sprintf("M%d", i+1), ps(par("v", Named(i, "T"))), nil)
+				case 2:
+					m = meth(fmt.Sprintf("M%d", i+1), ps(par("k", Basic("string"))), ps(par("", Ptr(Named(i, "T"))), par("", errT)))
+				default:
+					m = meth(fmt.Sprintf("M%d", i+1), ps(par("f", Func([]T{Named(i, "T")}, []T{Named(i, "U")}))), nil)
+				}
+				it.Methods = append(it.Methods, m)
+				am := map[int]string{}
+				if i < len(aliases) && aliases[i] != "" {
+					am[i] = aliases[i]
+				}
+				it.Aliases = append(it.Aliases, am)
+			}
 		}
 		src := newSrc("isrc", pkgs, it)
 		dest := "implicit"
 		if (len(cases)+int(seed))%5 == 0 {
 			dest = "other"
 		}
+		rep := 4
+		if oneType {
+			rep = 10
+		}
 		cases = append(cases, &Case{Origin: "imports:" + tag, Src: src, Cfg: Cfg{Dest: dest, Args: []string{"Imp"}},
-			Judge: []string{"C01", "C02", "C11", "C14", "C19"}, Repeat: 6})
+			Judge: []string{"C01", "C02", "C11", "C14", "C19"}, Repeat: rep})
 	}
 	name := func(sel []impElem) string {
 		var s []string
@@ -176,11 +211,20 @@ func CorpusImports(seed int64, tier string) []*Case {
 		for _, b := range u {
 			sel := []impElem{a, b}
 			mk(sel, nil, name(sel))
-			// source aliases: kept when free, conflicting, equal to the other's name
-			for _, al := range [][]string{{"al", ""}, {"", "y"}, {"foo", ""}, {"xy", "xy2"}} {
-				if (len(cases)+int(seed))%3 == 0 || tier == "thorough" {
-					mk(sel, al, name(sel)+" aliases="+strings.Join(al, "|"))
+			// source aliases: free, equal to the other package's name (either order),
+			// equal to each other's would-be alias, both aliased
+			for _, al := range [][]string{{"al", ""}, {"", "al"}, {b.Name, ""}, {"", a.Name}, {"al", "al2"}, {"xy", ""}} {
+				if al[0] == a.Name && al[1] == "" && a.Name == b.Name {
+					continue // a file cannot alias a package to the name the other file's package already has? it can: different files
 				}
+				mk(sel, al, name(sel)+" aliases="+strings.Join(al, "|"))
+			}
+			if a.Name != b.Name {
+				oneType = true
+				mk(sel, nil, name(sel)+" one-type")
+				mk(sel, []string{b.Name, ""}, name(sel)+" one-type aliases="+b.Name+"|")
+				mk(sel, []string{"", "al"}, name(sel)+" one-type aliases=|al")
+				oneType = false
 			}
 		}
 	}
@@ -226,6 +270,16 @@ func CorpusNames(seed int64, tier string) []*Case {
 			if rng.Intn(3) == 0 {
 				addM(ps(par(n1, Basic("string")), par(n2, Basic("string"))), ps(par("", Basic("string")), par("", errT)))
 			}
+		}
+	}
+	for _, n := range names {
+		if n == "" || n == "_" {
+			continue
+		}
+		for _, t := range []T{Basic("string"), Basic("int"), Named(0, "T")} {
+			addM(ps(par(n, t), par("_", t), par("_", t)), nil)
+			addM(ps(par("_", t), par(n, t), par("_", t)), nil)
+			addM(ps(par("_", t), par("_", t), par(n, t)), ps(par("", t)))
 		}
 	}
 	for i := 0; i < 150; i++ {
@@ -288,7 +342,7 @@ func CorpusGenerics(seed int64, tier string) []*Case {
 		tps  []TypeParam
 	}
 	var gs []g
-	constraints := []string{"any", "comparable", "stringer", "union", "method", "pkgnum:1", "mixed"}
+	constraints := []string{"any", "comparable", "stringer", "union", "method", "pkgnum:1", "mixed", "ustring", "ufloat", "ubytes"}
 	for _, c := range constraints {
 		gs = append(gs, g{"G1" + strings.NewReplacer(":", "", "1", "").Replace(c), []TypeParam{{Name: "T", Constraint: c}}})
 	}
@@ -336,15 +390,15 @@ func CorpusFlags(seed int64, tier string) []*Case {
 	}
 	src := newSrc("fsrc", pkgs, ifs...)
 	i := 0
-	for _, cfg := range allCfgs() {
-		for _, it := range ifs {
+	for ci, cfg := range allCfgs() {
+		for ii, it := range ifs {
 			i++
-			if tier != "thorough" && (i+int(seed))%2 != 0 {
+			if tier != "thorough" && (ci+ii+int(seed))%2 != 0 {
 				continue
 			}
 			c := cfg
 			c.Args = []string{it.Name}
-			if i%4 == 0 {
+			if (ci/2+ii)%4 == 0 {
 				c.Args = []string{it.Name + ":" + it.Name + "Double"}
 			}
 			cases = append(cases, &Case{Origin: "flags:" + it.Name, Src: src, Cfg: c, RunFmts: true,
@@ -380,17 +434,34 @@ func CorpusMulti(seed int64, tier string) []*Case {
 			}
 		}
 	}
-	lists = append(lists, []string{"Reader:R1", "Writer:W1"}, []string{"Other:Fake", "Reader"}, []string{"Reader:ReaderDouble", "Reader:ReaderTwin"},
+	lists = append(lists, []string{"Reader:Reader", "Writer"}, []string{"Writer:Other", "Reader:Nothing"}, []string{"Other:Writer"},
+		[]string{"Reader:R1", "Writer:W1"}, []string{"Other:Fake", "Reader"}, []string{"Reader:ReaderDouble", "Reader:ReaderTwin"},
 		[]string{"Writer:Alpha", "Other:Beta", "Reader:Gamma"}, []string{"Reader", "Writer", "Other", "Nothing"})
 	for i, l := range lists {
 		cfgs := []Cfg{{Dest: "implicit"}, {Dest: "other", WithResets: true}, {Dest: "other", SkipEnsure: true, Stub: true}, {Dest: "srcTest"}}
 		for k, cfg := range cfgs {
-			if tier != "thorough" && (i+k+int(seed))%4 != 0 {
+			if tier != "thorough" && (i+k+int(seed))%4 != 0 && !strings.Contains(strings.Join(l, ","), ":") {
 				continue
+			}
+			if cfg.Dest != "other" && aliasIsIfaceName(l, names) {
+				continue // in the source package an interface and a mock cannot share a name
 			}
 			cfg.Args = l
 			cases = append(cases, &Case{Origin: "multi:" + strings.Join(l, ","), Src: src, Cfg: cfg, Solo: true, Judge: []string{"C01", "C02", "C20", "C14", "C19"}, Repeat: 3})
 		}
 	}
 	return cases
+}
+
+func aliasIsIfaceName(args []string, names []string) bool {
+	for _, a := range args {
+		if i := strings.Index(a, ":"); i >= 0 {
+			for _, n := range names {
+				if a[i+1:] == n {
+					return true
+				}
+			}
+		}
+	}
+	return false
 }
